@@ -8,10 +8,12 @@ package main
 import (
 	"encoding/json"
 	"fmt"
+	"math"
 	"os"
 	"os/exec"
 	"path/filepath"
 	"runtime"
+	"strconv"
 	"strings"
 	"testing"
 
@@ -145,6 +147,44 @@ func cellMap(tables []*csvTable) map[string][]string {
 		}
 	}
 	return m
+}
+
+func geoMap(tables []*csvTable) map[string][]string {
+	m := map[string][]string{}
+	for _, t := range tables {
+		for col, cell := range t.Geo {
+			m[refproj.CanonMap(t.Key)+"#"+t.Unit+"|"+t.GeoLabel+"|"+fmt.Sprint(t.ColHdrs[col])] = cell
+		}
+	}
+	return m
+}
+
+// geoLastBits reports whether two summary-row cells differ only in the last bits of their
+// numbers: every element is equal as text or a number (with or without a % sign) that agrees
+// to a relative 1e-13.
+func geoLastBits(a, b []string) bool {
+	for i := range a {
+		if a[i] == b[i] {
+			continue
+		}
+		x, err1 := strconv.ParseFloat(strings.TrimSuffix(a[i], "%"), 64)
+		y, err2 := strconv.ParseFloat(strings.TrimSuffix(b[i], "%"), 64)
+		if err1 != nil || err2 != nil || strings.HasSuffix(a[i], "%") != strings.HasSuffix(b[i], "%") {
+			return false
+		}
+		if strings.HasSuffix(a[i], "%") {
+			// a ratio printed as a percentage change with two decimals: the ratios are 1+x/100
+			x, y = 1+x/100, 1+y/100
+			if math.Abs(x-y) > 0.0100001/100 {
+				return false
+			}
+			continue
+		}
+		if math.Abs(x-y) > 1e-13*math.Max(math.Abs(x), math.Abs(y)) {
+			return false
+		}
+	}
+	return true
 }
 
 func c15Check(c c15Case) (v vcase.Verdict) {
@@ -303,11 +343,34 @@ func c15Check(c c15Case) (v vcase.Verdict) {
 			return
 		}
 	}
+	// the summary row: one cell (and one ratio) per column
+	ga, gb := norm(geoMap(tables), dir), norm(geoMap(t2), dir2)
+	if len(ga) != len(gb) {
+		v.Failf("permuting lines within blocks changed the number of summary-row cells: %d vs %d\nargs %q", len(ga), len(gb), c.Stat.flags("csv"))
+		return
+	}
+	for k, ca := range ga {
+		cb, ok := gb[k]
+		if ok && fmt.Sprint(ca) == fmt.Sprint(cb) {
+			continue
+		}
+		// C15-b: the geometric mean is a running mean over the rows in their order, so its last
+		// bits follow the row order (which follows the line order); the CSV prints all digits
+		if ok && len(ca) == len(cb) && vcase.KnownListed("C15-b") && geoLastBits(ca, cb) {
+			v.KnownHit("C15-b")
+			continue
+		}
+		v.Failf("permuting lines within blocks changed the summary row %s: %q vs %q\nargs %q\n--- original csv\n%s\n--- permuted csv\n%s", k, ca, cb, c.Stat.flags("csv"), clipS(first[1].o), clipS(o2))
+		return
+	}
 	return
 }
 
 func c15Gen(t *rapid.T) c15Case {
+	// some inputs hold zero measurements of either sign (-0 and 0 are equal as numbers, but print differently)
+	statGenSignedZeros = vcase.OneIn(t, 5, "signedzeros")
 	st := genStatCase(t)
+	statGenSignedZeros = false
 	if vcase.OneIn(t, 6, "configaxis") {
 		// the whole file configuration as a column or row axis (the checks that compare with
 		// the reference pipeline keep .config in the table key; determinism needs no reference)
